@@ -7,6 +7,7 @@ from depsim.runner import Violation, add_set, bump, digest
 
 class C11(ParserSessionProp):
     id = 'C11'
+    scale_every = {'quick': 300, 'thorough': 100}
     replica_rate = {'quick': 0.08, 'thorough': 0.25}
     big_batch_rate = {'quick': 0.05, 'thorough': 0.15}
     rule = ('case = (sentence, call context) response of the real depccg.parsing.run inside a multi-call '
